@@ -137,6 +137,7 @@ func (e *Env) installOnStep() {
 			if h := &e.atStep[i]; !h.done && s.Step() >= h.k {
 				h.done = true
 				h.f()
+				s.Acted = true
 			}
 		}
 		for _, i := range e.invs {
